@@ -149,6 +149,16 @@ func (e *Env) Rebind() {
 	}
 }
 
+// RebindServersOnly re-reads the handler chains but leaves the upstreams' real proxies in place.
+func (e *Env) RebindServersOnly() {
+	e.Elton = map[string]*elton.Elton{}
+	for _, addr := range server.VerifServerAddrs() {
+		if s := server.Get(addr); s != nil && s.VerifElton() != nil {
+			e.Elton[addr] = s.VerifElton()
+		}
+	}
+}
+
 // Close closes the listeners.
 func (e *Env) Close() { server.VerifFreshRegistries() }
 
